@@ -93,3 +93,49 @@ Definition span_attributes (style_attrs : list (str * str)) (region : option str
   | None => style_attrs
   | Some r => dict_update (dict_put (lit "region") r style_attrs) inline
   end.
+
+(* ---- LegacyDFXPWriter at document level (wave 3) ------------------------------------------------------------ *)
+(* LegacyDFXPWriter.write: the styling section is written by the same rule as the main writer's (its own
+   _recreate_style also knows a `region` key, but in the head no <region> exists yet, so the key never yields an
+   attribute there); then the ONE fixed region "bottom" is defined (never removed); every <p> carries
+   region="bottom" (the writer adds {'region': 'bottom'} to every caption style) and style= as in the main writer;
+   a <span> carries region= only when its style dictionary has region = "bottom"; a <div> carries no region.
+   `d` is the set AFTER merge_concurrent_captions, restricted to the written languages. *)
+Definition legacy_region : str := lit "bottom".
+Definition legacy_span_region (content : list (str * str)) : list str :=
+  match lookup (lit "region") content with
+  | Some r => if str_eqb r legacy_region then [legacy_region] else []
+  | None => []
+  end.
+Definition legacy_region_refs (d : dset) : list str :=
+  flat_map (fun l => flat_map (fun c => legacy_region
+                                        :: flat_map (fun n => if rn_span (dn_r n) then legacy_span_region (dn_content n) else [])
+                                                    (dc_nodes c)) (dl_caps l)) (ds_langs d).
+Definition legacy_summarize (d : dset) : summary :=
+  let '(written, head_refs) := styling (ds_styles d) in
+  mkSummary (written ++ [legacy_region]) written [legacy_region]
+            (head_refs ++ body_style_refs written d) (legacy_region_refs d).
+(* domain: style ids distinct, none of the written ones is "bottom", at least one caption is written (otherwise the
+   fixed region is unreferenced: known finding C07-legacy-empty-language-region) *)
+Definition dom_legacy (d : dset) : bool :=
+  nodup_str (map fst (ds_styles d)) &&
+  negb (existsb (str_eqb legacy_region) (s_style_ids (legacy_summarize d))) &&
+  existsb (fun l => match dl_caps l with [] => false | _ => true end) (ds_langs d).
+
+(* ---- from caption nodes to the payload (wave 3: the glue the harness used to do) ---------------------------- *)
+(* a caption node as the writer sees it: a style-start node comes with its style dictionary, the region id the
+   RegionCreator assigns (None = no layout on the node) and the inline positioning attributes *)
+Inductive cnode :=
+| CText (s : str)
+| CBreak
+| CStart (content : list (str * str)) (region : option str) (inline : list (str * str))
+| CEnd.
+Definition to_pnode (style_ids : list str) (n : cnode) : pnode :=
+  match n with
+  | CText s => PText s
+  | CBreak => PBreak
+  | CStart content region inline => PStyleStart (span_attributes (recreate_style content style_ids) region inline)
+  | CEnd => PStyleEnd
+  end.
+Definition caption_payload (legacy : bool) (style_ids : list str) (nodes : list cnode) : str * bool :=
+  recreate_text legacy false (map (to_pnode style_ids) nodes).
